@@ -103,6 +103,9 @@ func (g *idGen) Read(p []byte) (int, error) {
 // when one is used (database/sql owns goroutines and channels).
 func Open() (*World, error) {
 	base := "/dev/shm"
+	if d := os.Getenv("VERIF_SHM"); d != "" {
+		base = d
+	}
 	if st, err := os.Stat(base); err != nil || !st.IsDir() {
 		base = os.TempDir()
 	}
